@@ -7,6 +7,7 @@ let () =
     | "ctx" -> Plevel_cmd.run_ctx
     | "view" -> Plevel_cmd.run_view
     | "lp" -> Lp_cmd.run_case
+    | "limits" -> Limits_cmd.run_case_full
     | "lpjudge" -> Lp_cmd.judge
     | _ -> prerr_endline ("unknown sub-command " ^ sub); exit 2 in
   (try
